@@ -81,7 +81,10 @@ class C09(Spec):
             cfg = sample_cfg(rng, tier, m_min=2)
             return {'family': 'io', 'cfg': cfg.to_json(), 'prog': iofam.gen(rng, cfg, tier), 'seed': seed,
                     'start_delays': sample_start_delays(rng, cfg.m)}
-        return _int_case('C09', seed, tier, effects=(seed % 2 == 0), K=2)
+        c = _int_case('C09', seed, tier, effects=(seed % 2 == 0), K=2)
+        if (seed // 2) % 9 == 4:
+            c['cfg']['no_barrier'] = True      # --no-barrier: exactly-once consumption must hold all the same
+        return c
 
     def monitors(self, case):
         return [M.WireMonitor()]
@@ -152,6 +155,8 @@ class C35(Spec):
 
     def make_case(self, seed, tier):
         c = _int_case('C35', seed, tier, effects=True, K=2, m_min=1)     # m = 1 runs are asynchronous too (-M1)
+        if (seed // 2) % 7 == 3:
+            c['cfg']['no_barrier'] = True      # barriers disabled: shutdown must still wait for everything started
         # make sure barriers occur, and that work is left un-awaited at the end
         rng = random.Random(f'C35b/{seed // 2}')
         stmts = c['prog']['stmts']
@@ -655,6 +660,18 @@ class C06(Spec):
 from fractions import Fraction as _Fr  # noqa: E402
 
 
+from .prog import EFFECTS as _PROG_EFFECTS  # noqa: E402
+
+
+def _scramble_args(prog, rng, p=0.3):
+    """In 30% of the programs every operation on input lists gets `_mut`: the harness passes a copy of the list and
+    scrambles that copy right after the call returns its placeholders (dsim/prog.py): results must not depend on it."""
+    if rng.random() < p:
+        for st in prog['stmts']:
+            if st[0] not in ('input', 'input_list', 'input_all', 'const', 'mklist', 'getitem') and st[0] not in _PROG_EFFECTS:
+                st[3] = dict(st[3], _mut=True)
+
+
 @_register
 class C29(Spec):
     check_id = 'C29'
@@ -664,7 +681,8 @@ class C29(Spec):
                  '(0-1 principle), seeded random lists with duplicates beyond')
     quick = {'runs': 1600, 'wall': 80}
     thorough = {'runs': 3000000, 'wall': 900}
-    OPS = ('sorted', 'sorted_rev', 'seclist_sort', 'min_max', 'argmin', 'argmax', 'sorted_rows', 'argmin_rows')
+    OPS = ('sorted', 'sorted_rev', 'seclist_sort', 'min_max', 'argmin', 'argmax', 'keyed', 'sorted_rows', 'argmin_rows')
+    N_ENUM_OPS = 7
     rule = ('seeds below the enumeration bound map to (n, 0-1 vector, operation) and enumerate all 2^n vectors for n<=6 '
             '(quick) / n<=9 (thorough) per operation; remaining seeds draw random lists (n<=12, duplicates, negatives) of '
             'secure integers or fixed-point numbers; distinct = sha256(configuration, program, tape); non-trivial = m>=2, n>=2')
@@ -690,12 +708,14 @@ class C29(Spec):
             return [['argmin', ['i', 'v'], ['x'], {}]], ['i', 'v']
         if op == 'argmax':
             return [['argmax', ['i', 'v'], ['x'], {}]], ['i', 'v']
+        if op == 'keyed':
+            return [['keyed', ['a', 'b', 'i', 'v', 'j', 'w', 'y'], ['x'], {}]], ['a', 'b', 'i', 'v', 'j', 'w', 'y']
         raise ValueError(op)
 
     def make_case(self, seed, tier):
         rng = random.Random(f'C29/{seed}')
         enum = self._enum(tier)
-        ops6 = self.OPS[:6]
+        ops6 = self.OPS[:self.N_ENUM_OPS]
         i = seed % 1000003
         cfg = sample_cfg(rng, tier, m_min=2, m_max=3 if i < len(enum) * len(ops6) else None)
         if i < len(enum) * len(ops6):
@@ -712,10 +732,11 @@ class C29(Spec):
                 return {'family': 'int', 'cfg': cfg.to_json(), 'prog': prog, 'seed': seed}
             st, outs = self._stmts(op, n)
             prog = intfam.gen_fixed(cfg, rng.choice((8, 16)), [('x', vals)], st, outs, sender=rng.randrange(cfg.m))
+            _scramble_args(prog, rng)
             return {'family': 'int', 'cfg': cfg.to_json(), 'prog': prog, 'seed': seed}
         n = rng.randint(1, 12 if tier != 'quick' else 9)
         op = rng.choice(self.OPS)
-        if rng.random() < 0.3 and op in ops6[:2] + ops6[3:]:
+        if rng.random() < 0.3 and op in ops6[:2] + ops6[3:6]:
             td = {'l': 24, 'f': 8}
             vals = [_Fr(rng.randint(-40, 40) * rng.choice((1, 1, 3)), rng.choice((1, 2, 4, 256))) for _ in range(n)]
             # keep integrality uniform over the list (a list operation takes one flag for the whole list)
@@ -739,6 +760,7 @@ class C29(Spec):
         else:
             st, outs = self._stmts(op, n)
             prog = intfam.gen_fixed(cfg, l, [('x', vals)], st, outs, sender=rng.randrange(cfg.m))
+        _scramble_args(prog, rng)
         return {'family': 'int', 'cfg': cfg.to_json(), 'prog': prog, 'seed': seed}
 
     def nontrivial(self, case, res):
@@ -747,8 +769,8 @@ class C29(Spec):
     def evidence_extra(self, agg, tier):
         enum = self._enum(tier)
         return {'exhaustive': False,
-                'enumerated_part': f'all 0-1 vectors of length 0..{6 if tier == "quick" else 9} x 6 operations = '
-                                   f'{len(enum) * 6} cases, covered iff evaluations >= that number (seeds are consecutive)'}
+                'enumerated_part': f'all 0-1 vectors of length 0..{6 if tier == "quick" else 9} x 7 operations = '
+                                   f'{len(enum) * 7} cases, covered iff evaluations >= that number (seeds are consecutive)'}
 
 
 @_register
@@ -877,6 +899,7 @@ class C30(Spec):
             a = max(-lim, min(lim, a)) or 2
             b = max(-lim, min(lim, b))
             prog = G(cfg, l, [('a', a), ('b', b)], [['gcp2', ['g'], ['a', 'b'], {'l': rng.choice((None, l))}]], ['g'], snd)
+        _scramble_args(prog, rng)
         return {'family': 'int', 'cfg': cfg.to_json(), 'prog': prog, 'seed': seed}
 
     def evidence_extra(self, agg, tier):
